@@ -5,8 +5,7 @@ def check(ctx):
     kernel.run_tables(ctx, 'C02', [
         ('Environment', 'step'), ('Event', '__init__'), ('Event', 'succeed'), ('Event', 'fail'), ('Event', 'trigger'),
         ('Event', 'triggered'), ('Event', 'processed'), ('Event', 'ok'), ('Event', 'value'), ('Event', 'defused'),
-        ('Process', '_resume'), ('Process', '__init__'), ('Process', 'is_alive'), ('Initialize', '__init__'),
-        ('Timeout', '__init__'), ('StopSimulation', 'callback'),
+        ('Process', '_resume'), ('Process', '__init__'), ('Process', 'is_alive'),
     ])
     whomay.outcome_writers(ctx, 'C02')
     whomay.callback_list_discipline(ctx, 'C02')
